@@ -85,6 +85,9 @@ def run(check, prog):
     # ... and `an invalid scatterer gives -inf` rests on the constructors refusing
     # exactly the invalid ones (rule shared with C20)
     c20.constructors(check, prog)
+    # ... for every centred shape a model can hold (sibling cross-check of the sign
+    # and centre refusals)
+    c20.sphere_like_constructors(check, prog)
     # ... for the shapes of the compiled T-matrix code as well (shared with C10):
     # a negative size proposed inside a prior's support must be an
     # InvalidScatterer, not a call into code that ends the interpreter
